@@ -2556,6 +2556,15 @@ def check_C19(ctx):
             for rep in ("text", "xml"):
                 configs.append((lab, Scen(root, mode=mode), rep))
 
+    # the legs this check feeds to the channel model are the legs of the runner model's tree (Tree.legs, about which
+    # C19_channel_model_abstracts_the_runner is proved)
+    lscens = [sc for lab, sc, rep in configs if rep == "text" and lab != "more results than the channel holds"]
+    louts = run_model(["legs"], "".join(sc.text() + "---\n" for sc in lscens)).split("---\n")
+    nleg = sum(1 for sc, lo in zip(lscens, louts) if lo.strip().split("\n") != legs_of(sc))
+    bad = next(((sc, lo) for sc, lo in zip(lscens, louts) if lo.strip().split("\n") != legs_of(sc)), None)
+    ctx.oblige("the legs fed to the channel model are the legs of the runner model's tree (modeldrv legs = legs_of)", nleg == 0,
+               "" if bad is None else f"{bad[0].mode}: model {bad[1].strip().split(chr(10))} check {legs_of(bad[0])}\n{bad[0].text()}")
+
     def run_one(job):
         i, sc, rep, fault = job
         wd = os.path.join(ctx.work, f"c19-{i}")
